@@ -10,25 +10,30 @@ EXTENDS World, Ignore, TLC, Json, IOUtils, FiniteSets
 Rec == ndJsonDeserialize(IOEnv.OBS)
 VARIABLE l
 
-RECURSIVE RelC(_, _)
-RelC(w, n) == IF w.nodes[n].parent = 0 THEN w.nodes[n].namec ELSE RelC(w, w.nodes[n].parent) \o <<"/">> \o w.nodes[n].namec
-Lines(r, kind) == [i \in 1 .. Len(r.lines) |->
-                     [kind |-> IF r.lines[i].blank THEN "none" ELSE IF r.lines[i].isrx THEN "hgrx" ELSE kind,
-                      glob |-> r.lines[i].glob, neg |-> r.lines[i].neg, rx |-> r.lines[i].rx]]
-SelfIgnored(r, n) ==
+(* contexts: [root: the search root, base: the directory that holds the ignore file (0 = the top of the world), lines]; *)
+(* a scenario with one ignore file at the top of the world names none (ctxs = <<>>) and means r.root / r.lines           *)
+Ctxs(r) == IF r.ctxs = <<>> THEN << [root |-> r.root, base |-> 0, lines |-> r.lines] >> ELSE r.ctxs
+RECURSIVE RelC(_, _, _)
+RelC(w, n, b) == IF w.nodes[n].parent = b THEN w.nodes[n].namec ELSE RelC(w, w.nodes[n].parent, b) \o <<"/">> \o w.nodes[n].namec
+Lines(c, kind) == [i \in 1 .. Len(c.lines) |->
+                     [kind |-> IF c.lines[i].blank THEN "none" ELSE IF c.lines[i].isrx THEN "hgrx" ELSE kind,
+                      glob |-> c.lines[i].glob, neg |-> c.lines[i].neg, rx |-> c.lines[i].rx]]
+SelfIgnored(r, c, n) ==
   IF r.tool = "git" THEN r.snapshot[n].gitignored
-  ELSE IF r.tool = "docker" THEN DockerIgnored(Lines(r, "docker"), RelC(r.world, n))
-  ELSE HgIgnored(Lines(r, "hgglob"), RelC(r.world, n))
-RECURSIVE Ignored(_, _)
-Ignored(r, n) == SelfIgnored(r, n) \/ (r.world.nodes[n].parent # 0 /\ Ignored(r, r.world.nodes[n].parent))
+  ELSE IF r.tool = "docker" THEN DockerIgnored(Lines(c, "docker"), RelC(r.world, n, c.base))
+  ELSE HgIgnored(Lines(c, "hgglob"), RelC(r.world, n, c.base))
+RECURSIVE Ignored(_, _, _)
+Ignored(r, c, n) == SelfIgnored(r, c, n) \/ (r.world.nodes[n].parent # c.base /\ Ignored(r, c, r.world.nodes[n].parent))
 
 Verdict(r) ==
   LET w == r.world  all == NodeIds(w)
       IdOf(s) == IF \E n \in all : r.snapshot[n].ino = s THEN CHOOSE n \in all : r.snapshot[n].ino = s ELSE 0
       rows == r.obs.q.rows
       got == { IdOf(rows[i][1]) : i \in 1 .. Len(rows) }
-      scope == { n \in Listed(w, r.root, 0, 0) : w.nodes[n].name \notin {".hg", ".git"} }
-      want == IF r.active THEN { n \in scope : ~Ignored(r, n) } ELSE scope
+      cs == Ctxs(r)
+      ScopeOf(c) == { n \in Listed(w, c.root, 0, 0) : w.nodes[n].name \notin {".hg", ".git"} }
+      scope == UNION { ScopeOf(cs[i]) : i \in 1 .. Len(cs) }
+      want == IF r.active THEN UNION { { n \in ScopeOf(cs[i]) : ~Ignored(r, cs[i], n) } : i \in 1 .. Len(cs) } ELSE scope
       y == IF r.obs.q.timed_out THEN "timeout" ELSE IF r.obs.q.panic THEN "crash"
            ELSE IF r.obs.q.status = 2 THEN "rejected-as-malformed"
            ELSE IF 0 \in got THEN "unknown-row"
